@@ -27,7 +27,6 @@ type forExpander struct {
 
 	// output fields
 	tokens chan token
-	closed bool
 }
 
 type forStateFn func(f *forExpander) forStateFn
@@ -67,33 +66,36 @@ func (p *forExpander) next() token {
 }
 
 func (f *forExpander) run() {
-	if f.closed || f.atEOF {
+	// closing the channel ends the stream for the reader whether or not an
+	// EOF or error token has been emitted; sending a final token instead
+	// would block forever once the reader has stopped at such a token
+	defer close(f.tokens)
+
+	if f.atEOF {
 		return
 	}
 	for state := forLine; state != nil; {
 		state = state(f)
 	}
-
-	// add an extra EOF in case we end without one
-	// we don't want to block on reading from the channel
-	f.tokens <- token{tokEOF, ""}
-	f.closed = true
 }
 
 func (f *forExpander) NextToken() (token, error) {
-	if f.closed {
+	tok, ok := <-f.tokens
+	if !ok {
 		return token{}, fmt.Errorf("no more tokens")
 	}
-	return <-f.tokens, nil
+	return tok, nil
 }
 
 func (f *forExpander) Tokens() ([]token, error) {
-	if f.closed {
-		return nil, fmt.Errorf("no more tokens")
-	}
 	tokens := make([]token, 0)
-	for !f.closed {
-		tok := <-f.tokens
+	for {
+		tok, ok := <-f.tokens
+		if !ok {
+			// the stream ended without an EOF token
+			tokens = append(tokens, token{tokEOF, ""})
+			break
+		}
 		tokens = append(tokens, tok)
 		if tok.typ == tokEOF || tok.typ == tokError {
 			break
